@@ -55,7 +55,8 @@ txt += ('\n\n### 12a. Behaviour-preserving refactorings: which checks raise an a
         'Three sub-agents wrote twelve harmless refactorings (front end / option writers; numerical core; geometry, topology, formatter), each with '
         'a differential test of its own; `bin/refrun <name> <diff>` applies one to `/repo`, runs the quick checks and restores `/repo`.  The table is '
         'the LAST run of each (after the translator fallback of §4.1 and the interprocedural walk of X19 were added; before them R2-1, R2-2, R2-4 broke '
-        'the translator contract in C01, C02, C03, C07, C08, C10, C11, C14).  No oracle and no correspondence stage reported a failing input on any of them.\n\n'
+        'the translator contract in C01, C02, C03, C07, C08, C10, C11, C14 and R1-1, R1-2, R1-4 the main-flow translator in C20 -- all as '
+        '"tie broken, no failing input").  No oracle and no correspondence stage reported a failing input on any of them at any time.\n\n'
         '| refactoring | what | alarms of the last run |\n|------|------|------|\n' + '\n'.join(ref))
 s = s[:a] + '\n\n' + txt + '\n\n' + s[b:]
 open(p, 'w').write(s)
